@@ -5,7 +5,7 @@ from ..worlds import structs
 from ..worlds.cuckoo import CuckooWorld, cuckoo_export, cuckoo_load
 from . import PropSpec
 
-STYLES = ("abs", "rel", "path", "relpath")
+STYLES = ("abs", "rel", "path", "relpath", "dirlink", "home")
 
 
 class C05Struct(Scenario):
@@ -26,6 +26,10 @@ class C05Struct(Scenario):
         self.n_gen += 1
         r = rng.below(100)
         ff = self.cfg["fault_free"]
+        if r < 6 and self.cfg["subject"] in ("BloomFilter", "CountingBloomFilter") and not ff:
+            # the result of a set operation (estimated element count, freshly built cell array) is a reachable state too
+            return {"op": "derive", "which": rng.choice(("intersection", "union")),
+                    "ks": [rng.below(self.cfg["universe"] + 3) for _ in range(rng.between(0, 5))]}
         if r < 68:
             return {"op": "mut", "m": self.sub.gen_op(rng)}
         if r < 94:
@@ -66,6 +70,24 @@ class C05Struct(Scenario):
                 ctx.count("mutation_raised." + type(e).__name__)
                 return {"r": "exc:" + type(e).__name__}
             return {"r": r if isinstance(r, (int, str)) or r is None else str(r)}
+        if op == "derive":
+            import probables
+
+            sub = self.sub
+            if sub.name not in ("BloomFilter", "CountingBloomFilter"):
+                return "skip"
+            C = getattr(probables, sub.name)
+            sib = C(self.cfg["est"], self.cfg["rate"], hash_function=self.env.hf)
+            for k in step["ks"]:
+                sib.add(seams.key_of(k))
+            res = getattr(sub.obj, step["which"])(sib)
+            if res is None:
+                return "skip"
+            sub.obj = res
+            sub.model = {}
+            sub.cfg["saturated"] = True
+            ctx.fault("derived_state")
+            return {"r": "ok", "count": res.elements_added}
         if op == "chdir":
             self.env.scr.chdir(step["dir"])
             ctx.fault("cwd_change")
